@@ -36,6 +36,13 @@ def branch(op, mres, tag):
 def predicate(op, il, mres, tag):
     """the property itself, on the implementation's behaviour"""
     f = op.split()
+    if f[1] == "load":
+        # a truncated or unparsable patch must be rejected (the model's verdict is a theorem: load_prefix_rejected)
+        if mres.startswith("err") and il.startswith("ok"):
+            return ("Relic.Props.C12.load_prefix_rejected", mres, "a patch the specification rejects was accepted by Load")
+        if il.startswith("crash") or il.startswith("panic"):
+            return ("Relic.Props.C12.load_dump", mres, "Load crashed: " + il[:80])
+        return None
     if f[1] != "apply":
         return None
     for flag in ("target-touched", "target-created", "leftover", "link-changed", "input-changed", "output-missing"):
